@@ -150,4 +150,9 @@ def features(fam, opts, assertions):
     big = any(len(tok) >= 10 and tok.isdigit() for a in assertions for tok in a.replace('(', ' ').replace(')', ' ').split())
     toks = set(tok for a in assertions for tok in a.replace('(', ' ').replace(')', ' ').split())
     return {'logic': fam.logic, 'family': fam.name, 'options': sorted(opts), 'input_class': 'big_constant' if big else 'small',
-            'bool_var': bool(toks & {'p', 'q', 'r', 's'})}
+            'bool_var': bool(toks & {'p', 'q', 'r', 's'}), 'engine': engine_of(opts)}
+
+
+def engine_of(opts):
+    """the search engine an option vector selects (findings about an engine hold whatever else is set)"""
+    return next((e for e in ENGINES if e in opts), 'cdcl')
